@@ -197,24 +197,30 @@ def gen_async_program(rng, max_tasks=6):
         return ids[0]
     budget = [max_tasks]
 
-    def body(depth):
+    def body(adepth, sdepth):
+        """adepth: nesting of actions on this path; sdepth: nesting of spawns."""
         out = []
         for _ in range(rng.randint(1, 3)):
             r = rng.random()
-            if r < 0.25:
+            if r < 0.2:
                 out.append({"k": "msg", "nid": nid()})
-            elif r < 0.55:
+            elif r < 0.5:
                 out.append({"k": "await", "nid": nid()})
-            elif r < 0.75 and depth < 3:
-                n = {"k": "act", "nid": nid(), "children": body(depth + 1), "outcome": "ok"}
+            elif r < 0.56 and sdepth >= 1:
+                # enter the context of the shared root action from inside a task (Action.context() / run() of one action
+                # used by several tasks whose own current actions differ)
+                out.append({"k": "rootctx", "nid": nid(), "via": rng.choice(["context", "context", "run"]),
+                            "children": [{"k": "msg", "nid": nid()}, {"k": "await", "nid": nid()}, {"k": "msg", "nid": nid()}]})
+            elif r < 0.8 and adepth < 5:
+                n = {"k": "act", "nid": nid(), "children": body(adepth + 1, sdepth), "outcome": "ok"}
                 if rng.random() < 0.25:
                     n["outcome"] = "raise"
                     n["exc"] = rng.choice(["ValueError", "UserError", "KeyError"])
                 out.append(n)
-            elif budget[0] >= 2 and depth < 3:
+            elif budget[0] >= 2 and sdepth < 2:
                 k = rng.randint(2, min(3, budget[0]))
                 budget[0] -= k
-                tasks = [body(depth + 1) for _ in range(k)]
+                tasks = [body(adepth, sdepth + 1) for _ in range(k)]
                 for tb in tasks:  # every task yields to the loop at least once, otherwise there is nothing to interleave
                     if not any(x["k"] == "await" for x in tb):
                         tb.insert(rng.randint(0, len(tb)), {"k": "await", "nid": nid()})
@@ -222,12 +228,20 @@ def gen_async_program(rng, max_tasks=6):
             else:
                 out.append({"k": "msg", "nid": nid()})
         return out
+
+    def nested_task():
+        """with a: await; with b: await; ... : blocks of different tasks overlap in non-LIFO order at depth >= 2."""
+        inner = [{"k": "await", "nid": nid()}, {"k": "msg", "nid": nid()}]
+        for _ in range(rng.randint(1, 3)):
+            inner = [{"k": "await", "nid": nid()}, {"k": "act", "nid": nid(), "children": inner, "outcome": "ok"}, {"k": "await", "nid": nid()},
+                     {"k": "msg", "nid": nid()}]
+        return inner
     root = {"k": "act", "nid": nid(), "children": [], "outcome": "ok"}
-    root["children"] = body(1)
-    if not any(n["k"] == "spawn" for n in root["children"]):
+    root["children"] = body(1, 0)
+    if not any(n["k"] == "spawn" for n in root["children"]) or rng.random() < 0.5:
         budget[0] -= 2
         root["children"].insert(rng.randint(0, len(root["children"])), {"k": "spawn", "nid": nid(), "how": rng.choice(["create_task", "gather", "taskgroup"]),
-                                                                         "tasks": [[{"k": "await", "nid": nid()}] + body(2), body(2) + [{"k": "await", "nid": nid()}]]})
+                                                                         "tasks": [nested_task() for _ in range(rng.randint(2, 3))]})
     prog = [root]
     if rng.random() < 0.3:
         prog.append({"k": "msg", "nid": nid()})
@@ -276,6 +290,23 @@ class AsyncInterp(object):
                 (self.forest if cur is None else gt_children).append(gt)
             elif k == "await":
                 await self.gate.point(node["nid"])
+            elif k == "rootctx":
+                root, root_gt = self.root
+                sub_strand = "%s/rootctx%s" % (strand, node["nid"])
+                if node["via"] == "context":
+                    with root.context():
+                        self.probe(root, "inside the shared action's context() (node %s)" % node["nid"])
+                        await self.run_children(node["children"], root_gt["children"], root, sub_strand)
+                        self.probe(root, "inside the shared action's context() after children (node %s)" % node["nid"])
+                else:
+                    # run() takes a plain function: log synchronously inside it
+                    def inside():
+                        self.probe(root, "inside the shared action's run() (node %s)" % node["nid"])
+                        for ch in node["children"]:
+                            if ch["k"] == "msg":
+                                log_message(message_type="co:m", nid=ch["nid"])
+                                root_gt["children"].append({"kind": "message", "type": "co:m", "fields": {"nid": ch["nid"]}, "nid": ch["nid"], "strand": sub_strand})
+                    root.run(inside)
             elif k == "act":
                 gt = {"kind": "action", "type": "co:a", "nid": node["nid"], "start": {"nid": node["nid"]}, "status": "started", "end": None,
                       "children": [], "strand": strand}
@@ -283,6 +314,8 @@ class AsyncInterp(object):
                 raised = None
                 try:
                     with start_action(action_type="co:a", nid=node["nid"]) as a:
+                        if cur is None and getattr(self, "root", None) is None:
+                            self.root = (a, gt)
                         self.probe(a, "inside action %s" % node["nid"])
                         await self.run_children(node["children"], gt["children"], a, strand)
                         self.probe(a, "inside action %s after children" % node["nid"])
